@@ -66,6 +66,9 @@ func (h *Hist) genConfigs() {
 			// a large group: hundreds of nodes, removal rates to match
 			minN = r.pickI(0, 3, 20, 60)
 			maxN = minN + r.rng(40, 260)
+			if focus == "big" && r.chance(50) {
+				maxN = minN + r.rng(180, 320) // room for a wave of well over a hundred removals in one scan
+			}
 			fast = r.pickI(5, 25, 60, 120)
 			slow = r.rng(0, fast)
 		}
@@ -145,6 +148,9 @@ func (h *Hist) genConfigs() {
 			effMin, effMax = int(asgMin), int(asgMax)
 		}
 		nNodes := r.rng(effMin, effMax)
+		if focus == "big" && h.big && i == 0 && effMax-effMin >= 180 && r.chance(70) {
+			nNodes = r.rng(effMax-40, effMax) // a well-stocked large group
+		}
 		if focus == "rotate" && r.chance(85) {
 			nNodes = effMin
 		}
@@ -514,6 +520,9 @@ func (h *Hist) randomEvent() string {
 		nodes = h.cfgIndexNodes(0)
 		soft, hard = int64(o.SoftDeleteGracePeriodDuration()/time.Second), int64(o.HardDeleteGracePeriodDuration()/time.Second)
 		frac := r.pickI(30, 60, 90, 97)
+		if focus == "big" {
+			frac = r.pickI(30, 60, 75, 75, 90, 97)
+		}
 		marked := map[string]bool{}
 		for _, n := range nodes {
 			if !r.chance(frac) || n.hasTaint(escKey) || n.hasTaint(forceKey) {
@@ -1059,7 +1068,16 @@ func (h *Hist) runHistory(scans int) (bool, string) {
 			return false, err.Error()
 		}
 		h.stats["outcome:"+outcome]++
-		if !h.scripted && outcome == "ok" && h.r.chance(20) {
+		waveSize := 0
+		for _, e := range h.rec.Entries {
+			if m, ok := e.Call.(map[string]interface{}); ok {
+				if _, t := m["terminateInAsg"]; t {
+					waveSize++
+				}
+			}
+		}
+		// (a big wave — dozens of removals in one scan — draws the operator's attention more often than a single removal)
+		if !h.scripted && outcome == "ok" && h.r.chance(map[bool]int{true: 60, false: 20}[waveSize >= 40]) {
 			// an operator reacts to a wave of removals: what is still marked gets cordoned before the next scan
 			removed := false
 			for _, e := range h.rec.Entries {
